@@ -43,6 +43,8 @@ MIN_COUNTERS = {
               'rt_histories': 100, 'multi_client_histories': 150,
               'sync_blocks_checked': 150, 'sync_points_observed': 150,
               'exit_fault_blocks_checked': 200, 'literal_int_targets': 300,
+              'blocks_held_open_checked': 15, 'alive_pings_on_wire': 10,
+              'clumped_blocks_checked': 5,
               'oracle_selftests': 1},
     'thorough': {'ops_compared': 1_500_000, 'messages_grammar_checked': 1_500_000,
                  'id_mentions_checked': 1_500_000, 'ledger_checks': 1_500_000,
@@ -50,6 +52,8 @@ MIN_COUNTERS = {
                  'rt_histories': 1000, 'multi_client_histories': 5000,
                  'sync_blocks_checked': 3000, 'sync_points_observed': 3000,
                  'exit_fault_blocks_checked': 5000, 'literal_int_targets': 5000,
+                 'blocks_held_open_checked': 300, 'alive_pings_on_wire': 200,
+                 'clumped_blocks_checked': 100,
                  'oracle_selftests': 1},
 }
 
@@ -78,6 +82,18 @@ def plan(tier, seed):
         shards.append({'name': f'rtsync{p}', 'mode': 'rt', 'kind': 'rtsync',
                        'first_case': f, 'n': k, 'secs': secs,
                        'hard_timeout': secs + 120})
+    # blocks held open across a ping of the running alive routine (~1 s each)
+    n = 60 if quick else 1500
+    for p, (f, k) in enumerate(split(n, 2 if quick else 3)):
+        shards.append({'name': f'rtalive{p}', 'mode': 'rt', 'kind': 'rtalive',
+                       'first_case': f, 'n': k, 'secs': min(secs, 32 if quick else secs),
+                       'hard_timeout': secs + 120})
+    # blocks larger than one datagram
+    n = 24 if quick else 900
+    for p, (f, k) in enumerate(split(n, 2 if quick else 3)):
+        shards.append({'name': f'rtbig{p}', 'mode': 'rt', 'kind': 'rtbig',
+                       'first_case': f, 'n': k, 'secs': min(secs, 32 if quick else secs),
+                       'hard_timeout': secs + 120})
     return shards
 
 
@@ -101,24 +117,39 @@ def run_shard(spec, acc):
     m.Buffer, m.ControlBus, m.AudioBus = buffer.Buffer, bus.ControlBus, bus.AudioBus
 
     kind = spec['shard']['kind']
-    mode = 'rt' if kind in ('rt', 'rtsync') else 'nrt'
+    mode = 'rt' if kind in ('rt', 'rtsync', 'rtalive', 'rtbig') else 'nrt'
     multi = kind == 'multi'
     if multi:
         server = Server('vf17', NetAddr('127.0.0.1', 57917), ServerOptions())
         server.latency = 0
+    elif kind == 'rtalive':
+        server = Server('vf17a', NetAddr('127.0.0.1', 57918), ServerOptions())
     else:
         server = Server.default
-    cap = c17_exec.Capture(mode, main)
+    cap = c17_exec.Capture(mode, main, background=kind == 'rtalive')
     ledger = c17_exec.Ledger()
     plain_addr = server.addr
 
     if kind == 'rtsync':
         run_sync_shard(spec, acc, m, main, server, cap, ledger)
         return
+    if kind == 'rtalive' and not start_alive(acc, server, cap):
+        return
 
     for i in iter_cases(spec):
         rng = case_rng(spec['seed'], 'C17', kind, i)
-        prog, stats = c17_gen.gen_program(rng, multi_client=multi, nrt=mode == 'nrt')
+        if kind == 'rtalive':
+            if not server.status.alive_thread_running:
+                acc.mark_inconclusive('the alive routine stopped')
+                return
+            pings0 = cap.bg_status
+            prog, stats = c17_gen.gen_alive_program(
+                rng, server._status_watcher._alive_thread_period)
+        elif kind == 'rtbig':
+            prog, stats = c17_gen.gen_big_program(rng)
+        else:
+            prog, stats = c17_gen.gen_program(rng, multi_client=multi,
+                                              nrt=mode == 'nrt')
         if mode == 'nrt':
             main.reset()
         if server.addr is not plain_addr:
@@ -173,6 +204,11 @@ def run_shard(spec, acc):
         acc.count('histories')
         if mode == 'rt':
             acc.count('rt_histories')
+        if kind == 'rtalive':
+            acc.count('alive_histories')
+            acc.count('alive_pings_on_wire', cap.bg_status - pings0)
+        if kind == 'rtbig':
+            acc.count('big_block_histories')
         if multi:
             acc.count('multi_client_histories')
             if cid:
@@ -239,3 +275,23 @@ def run_sync_shard(spec, acc, m, main, server, cap, ledger):
     acc.count('sync_replies_fed_back', cap.sync_replies)
     if cases and timeouts > max(3, cases // 20):
         acc.mark_inconclusive(f'{timeouts}/{cases} sync routines never resumed')
+
+
+def start_alive(acc, server, cap):
+    """Registers with the stand-in server (the `_send` recorder answers
+    /status, /notify and /sync), which starts the status watcher's real alive
+    routine on AppClock.  Bounded wait; never a verdict by itself."""
+    import time
+    done = []
+    server.register(on_complete=lambda *a: done.append(1))
+    t0 = time.time()
+    while time.time() - t0 < 15 and not (done and server.status.server_running):
+        time.sleep(0.05)
+    if not (done and server.status.server_running
+            and server.status.alive_thread_running):
+        acc.mark_inconclusive('could not register with the stand-in server '
+                              f'(pings seen: {cap.bg_status})')
+        return False
+    time.sleep(0.3)
+    acc.count('alive_routine_started')
+    return True
